@@ -105,7 +105,7 @@ structure SInv (s : State) : Prop where
   p6 : s.pc = .fetching → s.msetDuring = false → s.readSince = true → 0 < nLive s.aws
 
 theorem SInv.init (c : Cfg) : SInv (init c) := by
-  constructor <;> simp [Async.init, nLive]
+  constructor <;> simp [Async.init, nLive, sawsGone]
 
 /-! ## events that do not touch the boundary, the awaiters, `pc` or `loading` -/
 
@@ -183,6 +183,7 @@ theorem SInv.notifySubs {s : State} (h : SInv s) (hm : s.pc = .fetching → s.ms
     simp only [notifySubs_pending, notifySubs_idsHeld, notifySubs_susp, notifySubs_readSince,
       notifySubs_coveredCur, notifySubs_msetDuring, notifySubs_noReader, notifySubs_pc, notifySubs_aws, notifySubs_loading,
       nLive_wake] <;> simp_all
+  exact fun hn => sawsGone_wake (p4 hn).2.2.2.2
 
 theorem SInv.manualSet {s : State} (h : SInv s) (v : Val) : SInv (manualSet s v) := by
   obtain ⟨p1, p2, p3, p4, p5, p6⟩ := h
@@ -206,7 +207,9 @@ theorem SInv.applyResult {s : State} (h : SInv s) :
 theorem SInv.attach {s : State} (h : SInv s) : SInv { s with aws := s.aws ++ [{}] } := by
   obtain ⟨p1, p2, p3, p4, p5, p6⟩ := h
   have h0 : nLive [({} : Aw)] = 0 := by simp [nLive]
+  have h1 : sawsGone [({} : Aw)] := by simp [sawsGone]
   constructor <;> simp_all [nLive_append]
+  exact fun hn => sawsGone_append (p4 hn).2.2.2.2 h1
 
 theorem SInv.bread {s : State} (h : SInv s) : SInv (bread s) := by
   obtain ⟨p1, p2, p3, p4, p5, p6⟩ := h
@@ -215,7 +218,7 @@ theorem SInv.bread {s : State} (h : SInv s) : SInv (bread s) := by
   split
   · split
     · constructor <;> simp_all [nLive_append] <;> omega
-    · exact ⟨p1, p2, p3, p4, p5, p6⟩
+    · exact ⟨p1, p2, p3, fun hn => by simp at hn, p5, p6⟩
   · constructor <;> simp_all [nLive_append] <;> omega
 
 theorem SInv.attachS {s : State} (h : SInv s) :
@@ -236,7 +239,7 @@ theorem nLive_drop (l : List Aw) : nLive (l.map dropAw) = 0 := by
 theorem SInv.bdrop {s : State} (h : SInv s) : SInv (bdrop s) := by
   obtain ⟨p1, p2, p3, p4, p5, p6⟩ := h
   unfold Async.bdrop
-  constructor <;> simp_all [nLive_drop]
+  constructor <;> simp_all [nLive_drop, sawsGone_drop]
 
 theorem SInv.pollA {s : State} (h : SInv s) (i : Nat) : SInv (pollA s i) := by
   obtain ⟨p1, p2, p3, p4, p5, p6⟩ := h
@@ -246,7 +249,9 @@ theorem SInv.pollA {s : State} (h : SInv s) (i : Nat) : SInv (pollA s i) := by
   · omega
   · exact p2
   · exact p3
-  · exact p4
+  · intro hn
+    obtain ⟨a1, a2, a3, a4, a5⟩ := p4 hn
+    exact ⟨by omega, by rw [sawPolls_gone a5]; omega, a3, a4, sawsGone_poll a5 _ _ _⟩
   · exact p5
   · intro a b c
     have hl := p5 a b
@@ -263,7 +268,14 @@ theorem SInv.toFetch {s : State} (h : SInv s) (hpc : s.pc = .waiting) : SInv (fe
     split
     · rw [nLive_append]; simp [nLive]
     · rfl
-  rcases fetchState_cases s with ⟨_, _, _, _, heq⟩ | heq <;> rw [heq] <;> constructor <;> simp_all <;> omega
+  have hg : s.noReader = true →
+      sawsGone (if s.isLocal = true then s.aws ++ [({ kind := .tick, tag := s.nf + 1 } : Aw)] else s.aws) := by
+    intro hnr
+    split
+    · exact sawsGone_append (p4 hnr).2.2.2.2 (by simp [sawsGone])
+    · exact (p4 hnr).2.2.2.2
+  rcases fetchState_cases s with ⟨_, _, _, _, heq⟩ | heq <;> rw [heq] <;> constructor <;>
+    (try (intro hnr; have := p4 hnr; have := hg hnr)) <;> simp_all <;> omega
 
 theorem SInv.dIter {s : State} (h : SInv s) (hpc : s.pc = .waiting) :
     SInv (dIter s).1 ∧ ((dIter s).2 = true → (dIter s).1.pc = .waiting) := by
